@@ -276,8 +276,7 @@ class Components:
                              (component != old[0])):
             return False
 
-        if component is None:
-            component = old[0]
+        component = old[0]
 
         # Note that component is now the old thing registered
         self._utility_registrations_cache.unregisterUtility(
